@@ -16,17 +16,8 @@ from pyvc.contracts import Bool, Callback, Const, Inst, Int, IntRange, ListOf, O
 from pyvc import ext_c15 as X
 from pyvc.ext_c15 import AnyDyn, DynDict, SymStr, drop, forall_items, frozen, is_dict, mutable, put, sole_key
 
-from contracts.c15_keys import P_FROM, wf_db, wf_entry, wf_map
+from contracts.c15_keys import ENVIRONMENT, P_FROM, wf_db, wf_entry, wf_map  # noqa: F401 (ENVIRONMENT: one list for both files)
 
-ENVIRONMENT = [
-    'file system: open / json.load / json.dump / os.replace / pathlib exists, mkdir, with_name are recorded ghost callbacks over (exists, content, tmp_state, tmp_content, dir_exists, trace); os.replace is atomic (POSIX rename)',
-    'json: the file text is json.dumps(content); json.load(json.dump(v)) == v for JSON-representable v (str keys; None/bool/int/str/dict values); sort_keys/indent do not change the value',
-    'the writes json.dump performs on the temporary file are one WRITE effect (they only touch the temporary file)',
-    'pathlib: p.with_name(p.name + ".tmp") is a path different from p in the same directory',
-    'power-loss durability (no fsync) and concurrent processes writing the same file are outside the property',
-    'update(name, keys): `keys` is any object whose to_dict() returns a well-formed entry (ghost.kd); PairingKeys.to_dict has its own contract (c15_keys.py)',
-    'declared field types of PairingKeys / PairingKeys.Key (bytes, bool, Optional[int], Optional[bytes]) are assumed for the objects handed in',
-]
 
 DEFAULT = JsonKeyStore.DEFAULT_NAMESPACE
 EV_MKDIR, EV_OPEN_W, EV_WRITE, EV_CLOSE, EV_REPLACE = 1, 2, 3, 4, 5
@@ -289,7 +280,7 @@ contract(
     ensures=lambda self, res, old, ghost: [
         is_dict(res[0]) and res[0] == loaded_db(old.ghost, self.namespace),
         # the key map is the namespace's dict *inside* db (so that mutating it reaches what save(db) writes)
-        is_dict(res[0]) and res[1] is res[0][eff_ns(base_of(old.ghost), self.namespace)],
+        is_dict(res[0]) and eff_ns(base_of(old.ghost), self.namespace) in res[0] and res[1] is res[0][eff_ns(base_of(old.ghost), self.namespace)],
     ]
     + fs_untouched(old, ghost),
     ensures_names=['db-is-the-parsed-file-plus-the-namespace', 'key-map-is-the-namespace-dict-inside-db'] + UNTOUCHED,
@@ -455,20 +446,14 @@ def wf_view(g, ns):
     return forall_items(view_of(g, ns), lambda name, e: wf_entry(e))
 
 
-def occurs(res, name):
-    return exists(0, len(res), lambda i: res[i][0] == name) if len(res) > 0 else False
+def pairs_of(m):
+    """(peer, keys of its entry) for every peer of the key map, in the iteration order of the dict"""
+    return [(name, keys_of(e)) for (name, e) in m.items()]
 
 
 def get_all_post(self, res, old, ghost):
     m = view_of(old.ghost, self.namespace)
-    return [
-        len(res) == len(m),
-        # every pair is a peer of the namespace with the keys of its entry ...
-        len(res) == 0 or forall(0, len(res), lambda i: res[i][0] in m and res[i][1] == keys_of(m[res[i][0]])),
-        # ... no peer twice, and no peer missing
-        len(res) == 0 or forall(0, len(res), lambda i: forall(0, i, lambda j: res[j][0] != res[i][0])),
-        forall_items(m, lambda name, e: occurs(res, name)),
-    ] + fs_untouched(old, ghost)
+    return [res == pairs_of(m), len(res) == len(m)] + fs_untouched(old, ghost)
 
 
 contract(
@@ -478,7 +463,7 @@ contract(
     ghost=FS,
     requires=lambda self, ghost: store_pre(self, ghost) + [wf_view(ghost, self.namespace)],
     ensures=get_all_post,
-    ensures_names=['one-pair-per-peer-count', 'pairs-are-peers-with-their-keys', 'no-peer-twice', 'no-peer-missing'] + UNTOUCHED,
+    ensures_names=['one-pair-per-peer-with-the-keys-of-its-entry', 'as-many-pairs-as-peers'] + UNTOUCHED,
     modifies=TX_MOD,
     inline=LOAD_INLINE,
     uses=[P_FROM + '@value'],
